@@ -1,4 +1,5 @@
 import OmbottModel.Py
+import OmbottModel.Py.CharLit
 import OmbottModel.Model.Multipart
 import OmbottModel.Model.MultipartSpec
 /-!
@@ -240,12 +241,12 @@ def readLine (st : RdSt) (line : Str) : Except Exc RdSt :=
   | .error e => .error e
   | .ok h =>
     let st := { st with headers := dictSet st.headers h.name h }
-    if h.name = "Content-Disposition".toList then
-      match dictGet h.options "name".toList with
+    if h.name = cs!"Content-Disposition" then
+      match dictGet h.options cs!"name" with
       | none => .error (.py .keyError)                       -- `header.options['name']`
       | some nm =>
-        .ok { st with name := nm, filename := (dictGet h.options "filename".toList).join }
-    else if h.name = "Content-Type".toList then .ok { st with ctype := some h.value }
+        .ok { st with name := nm, filename := (dictGet h.options cs!"filename").join }
+    else if h.name = cs!"Content-Type" then .ok { st with ctype := some h.value }
     else .ok st
 
 def readLines : RdSt → List Str → Except Exc RdSt
@@ -337,7 +338,7 @@ structure Upload where
 
 /-- `FileUpload.content_type` is the `Header` object stored under `Content-Type`; this is its
 `.value` (`none`: the default `''` of the property) -/
-def Upload.contentType (u : Upload) : Option Str := (dictGet u.headers "Content-Type".toList).map (·.value)
+def Upload.contentType (u : Upload) : Option Str := (dictGet u.headers cs!"Content-Type").map (·.value)
 
 inductive Item
   | text (v : Option Str)      -- `None` for a part whose `filename` is empty
@@ -392,7 +393,7 @@ def afterBoundaryKey : Str → Option Str
   | [] => none
   | c :: cs =>
     if c = '\n' then none
-    else if startsWithS cs "boundary=".toList then some (cs.drop 9)
+    else if startsWithS cs cs!"boundary=" then some (cs.drop 9)
     else afterBoundaryKey cs
 
 /-- `(.+?)(;|$)` after its first character: up to the first `;`, the end, or a final line feed;
@@ -406,7 +407,7 @@ def scanBoundary : Str → Option Str
 
 /-- `MULTIPART_BOUNDARY_PATT.match(content_type).group(1)` -/
 def boundaryParam (ct : Str) : Option Str :=
-  if startsWithS ct "multipart/".toList then
+  if startsWithS ct cs!"multipart/" then
     match afterBoundaryKey (ct.drop 10) with
     | none => none
     | some [] => none
@@ -436,15 +437,15 @@ def Field.isFile : Field → Bool
 def quoted (s : Str) : Str := '"' :: (s ++ ['"'])
 
 def dispLine (name : Str) (filename : Option Str) : Str :=
-  "Content-Disposition: form-data; name=".toList ++ quoted name ++
+  cs!"Content-Disposition: form-data; name=" ++ quoted name ++
     (match filename with
-     | some fn => "; filename=".toList ++ quoted fn
+     | some fn => cs!"; filename=" ++ quoted fn
      | none => [])
 
 def Field.headerLines : Field → List Str
   | .text n _ => [dispLine n none]
   | .file n fn ct _ =>
-    dispLine n (some fn) :: (match ct with | some c => ["Content-Type: ".toList ++ c] | none => [])
+    dispLine n (some fn) :: (match ct with | some c => [cs!"Content-Type: " ++ c] | none => [])
 
 def Field.data : Field → Bytes
   | .text _ v => utf8Encode v
@@ -458,6 +459,6 @@ def encodeForm (boundary : Str) (fields : List Field) (epilogue : Bytes) : Bytes
 
 /-- the request's Content-Type header, with the boundary as a token or as a quoted string -/
 def contentTypeFor (boundary : Str) (quote : Bool) : Str :=
-  "multipart/form-data; boundary=".toList ++ (if quote then quoted boundary else boundary)
+  cs!"multipart/form-data; boundary=" ++ (if quote then quoted boundary else boundary)
 
 end Ombott.Forms
